@@ -14,7 +14,7 @@ PROPS = {
                      "that those callers pass the expression they were given is part of C02's statement-level units"],
         assumptions=["wf(skel(input)) is assumed of every parsed input (parser guarantee): operator tokens match their variant, operands fit",
                      "leaf formatters (calls, tables, functions, vars, if-expressions, interpolated strings, type assertions) keep their identity (class C stubs)"]),
-    "C08": dict(units=["ctx", "block", "lib", "sort", "table"],
+    "C08": dict(units=["ctx", "block", "lib", "sort", "table"], bounded=[dict(kind="ignore", kinds=["ignored-changed", "panic", "error", "timeout"])],
         explanation="should_format_node (real text): inside an ignore region or under a `stylua: ignore` directive the decision is Skip. "
                     "format_stmt / format_last_stmt: Skip => the node is returned unchanged. format_block (real loop, inductive invariant over the "
                     "peekable iterator): for every statement whose decision (under the context folded from the ignore start/end toggles) is Skip, the "
@@ -22,7 +22,7 @@ PROPS = {
         not_decided=["the string matching that recognises the directive text inside a comment (comment.lines().map(trim) — str iterators): assumed as has_ignore()/toggled()",
                      "format_multiline_table's loop (it toggles the ignore state per field and calls format_field): not under contract; format_field itself is (unit table)"],
         assumptions=["Block::stmts_with_semicolon / with_stmts / Peekable::next/peek behave as sequences (class A/B)"]),
-    "C09": dict(units=["ctx", "block", "lib", "sort"], bounded=[dict(kind="lib", witnesses="RANGE_SORT_WITNESSES")],
+    "C09": dict(units=["ctx", "block", "lib", "sort"], bounded=[dict(kind="lib", witnesses="RANGE_SORT_WITNESSES"), dict(kind="lib", witnesses="RANGE_BLANK_WITNESSES"), dict(kind="range", kinds=["before", "blank-lines", "after", "panic", "error", "timeout"])],
         explanation="should_format_node (real text) returns NotInRange iff start < range.start or end > range.end for all positions and bounds. "
                     "format_stmt / format_last_stmt: NotInRange => only nested blocks may change (stmt_block::*, assumed). format_block: an out-of-range "
                     "statement keeps its semicolon token and trailing trivia (pair pushed as returned), in the same position.",
@@ -53,7 +53,7 @@ PROPS = {
                     "format_eof ends a non-empty trivia list with exactly one configured newline; format_code returns the printed AST unmodified.",
         not_decided=["that every trivia-construction site in functions outside the units uses these helpers"],
         assumptions=["TokenType::tabs(n)/spaces(n) print n tabs/spaces (class A)", "indent arithmetic does not overflow usize (nesting depth x indent_width), stated as a precondition"]),
-    "C11": dict(units=["ctx", "tok", "args"], bounded=[dict(kind="lib", witnesses="C11_WITNESSES")],
+    "C11": dict(units=["ctx", "tok", "args"], bounded=[dict(kind="lib", witnesses="C11_WITNESSES"), dict(kind="corpus", kinds=["callparens"], configs="C11")],
         explanation="get_quote_to_use equals the quote-choice table of the property; should_omit_string/table_parens equal the call_parentheses table; "
                     "create_function_definition/call_trivia produce one space exactly for the option values that name the case.",
         not_decided=["format_method_call and the function-definition formatters (space after the name in definitions) are stubs: only the constructor create_function_definition_trivia is proved",
@@ -112,7 +112,7 @@ PROPS = {
                      "panics inside full_moon (e.g. BinOp::precedence `expect(\"invalid token\")`) and other dependencies"],
         assumptions=["machine integers: indent arithmetic (nesting depth x indent_width) and Display widths are treated as non-overflowing (stated preconditions / holes); Kani bounds: indent width < 2^16, nesting < 2^24, widths < 2^32"],
         technique="Verus: panic/arithmetic/termination obligations of every function under contract; Kani complete loop-free harness for Shape arithmetic within stated bounds"),
-    "C12": dict(units=["sort", "lib", "block"], bounded=[dict(kind="lib", witnesses="SORT_WITNESSES")],
+    "C12": dict(units=["sort", "lib", "block"], bounded=[dict(kind="lib", witnesses="SORT_WITNESSES"), dict(kind="corpus", kinds=["sort"], configs="C12")],
         explanation="partition_nodes_into_groups (real loop, inductive invariant, last_mut pushes): the parts concatenated in order are exactly the block's statements, no part is empty, group members are local assignments. "
                     "sort_requires (real text, outer loop desugared to while-let, two inner for-loops, first_mut write-throughs): the AST is returned untouched or rebuilt from statements emitted part by part in place — "
                     "a non-require part verbatim; a group containing a statement that is ignored (directive or ignore start/end region, folded over all statements in order) or outside the range verbatim; otherwise a "
@@ -163,6 +163,9 @@ EXPR_WITNESSES = [
     w(f"local x = {a40} or {a40} + ({b53} --[[c]] :: T) < {'c'*32}\n", syntax="luau", sweep=(1, 200)),
     w(f"return ({a40}.f()) + (...), ({a40}()), (...)\n", sweep=(1, 200)),
     w("local a = (#t) ^ 2\nlocal b = (not x) ^ y\nlocal c = (-x) ^ 2\n", sweep=(1, 200)),
+    # every pair of operators with the parentheses on either side (both associativities): grouping is never changed
+    w("".join(f"local v{i}_{j} = (a {o1} b) {o2} c, a {o1} (b {o2} c)\n" for i, o1 in enumerate(["^", "..", "*", "+", "==", "and", "or"]) for j, o2 in enumerate(["^", "..", "*", "+", "==", "and", "or"]))
+      + "local u = -(a ^ b), (-a) ^ b, not (a == b), (not a) == b, #(a .. b), (#a) .. b\n", sweep=(1, 200)),
     w(f"local v = (-some.long.name.here.{a40}):method()\nlocal w = (not a.b.{a40}).field\n", sweep=(1, 200)),
     w(f"local v = (x.{a40} :: T).field\n", syntax="luau", sweep=(1, 200)),
     w(f"local t = ({a40} + {b53}) * ({a40} - ({b53} - {a40})) / (({a40}) ^ ({b53} ^ c)) .. (d .. e)\n", sweep=(1, 200)),
@@ -182,6 +185,12 @@ BLOCK_WITNESSES = [
     w("local a = 1;\n(f)()\nf();\n(g).x = 1\nrepeat until x;\n(h)()\n", oracle="selfverify"),
     w("x += y;\n(f)()\nx -= 1;\n(g).y += 2\n", oracle="selfverify", syntax="luau"),
 ]
+_R1 = 'local first   =  1; -- keep me\n\nlocal second   =   { 1,2 }\nlocal third    =  3\n'
+_R2 = 'local function f()\n  local  a = 1\n\n  local b   =   2\n  return   a+b\nend\n'
+RANGE_BLANK_WITNESSES = [
+    w(_R1, oracle="contains", contains='local first   =  1; -- keep me\n\nlocal second = { 1, 2 }\nlocal third    =  3\n', range=(_R1.index("local second"), _R1.index("\nlocal third"))),
+    w(_R2, oracle="contains", contains='local function f()\n  local  a = 1\n\n', range=(_R2.index("local b"), _R2.index("\n  return"))),
+]
 LIB_WITNESSES = [
     w("-- stylua: ignore\nlocal t = {\n   1,\n      2 }\nlocal   x = 1\n", oracle="contains", contains="local t = {\n   1,\n      2 }\n", line_endings="Windows"),
     w("local s = [[a\nb]]\nlocal   x = 1 -- c\n", oracle="selfverify"),
@@ -195,6 +204,12 @@ SORT_WITNESSES = [
     w('local b = require("b") -- cb\nlocal a = require("a") -- ca\n-- above c\nlocal d = require("d")\nlocal c = require("c")\nprint(a)\nlocal f = require("f")\nlocal e = game:GetService("E")\nlocal d2 = game:GetService("D")\nlocal x = 1\nreturn x\n', oracle="permutation", **SR),
     w('local b = require("b")\nlocal a = require("a")\nlocal x = b.c\nlocal y = require(x)\n', oracle="permutation"),
     w('-- stylua: ignore start\nlocal x   =  1\nlocal b = require("b")\nlocal a = require("a")\n-- stylua: ignore end\nlocal q   = 1\nlocal d = require("d")\nlocal c = require("c")\n', oracle="contains", contains='local x   =  1\nlocal b = require("b")\nlocal a = require("a")\n-- stylua: ignore end\nlocal q = 1\nlocal c = require("c")\nlocal d = require("d")\n', **SR),
+    # an ignore region that starts in front of one require group and ends behind the next one: neither group is touched, later groups are sorted
+    w('local x   =  1\n\n-- stylua: ignore start\nlocal b   = require("b")\nlocal a = require( "a" )\n\nlocal d   =   require("d")\nlocal c =   require( "c" )\n-- stylua: ignore end\n\nlocal z   =  2\nlocal f = require("f")\nlocal e = require("e")\n',
+      oracle="contains", contains='-- stylua: ignore start\nlocal b   = require("b")\nlocal a = require( "a" )\n\nlocal d   =   require("d")\nlocal c =   require( "c" )\n-- stylua: ignore end\n\nlocal z = 2\nlocal e = require("e")\nlocal f = require("f")\n', **SR),
+    # the sort is stable: requires bound to the same name keep their order (a later one shadows an earlier one)
+    w('local Util = require("shared.util")\nlocal Signal = require("signal")\nlocal Util = require("client.util")\nlocal Alpha = require("z")\nlocal Alpha = require("a")\n', oracle="contains",
+      contains='local Alpha = require("z")\nlocal Alpha = require("a")\nlocal Signal = require("signal")\nlocal Util = require("shared.util")\nlocal Util = require("client.util")\n', **SR),
 ]
 RANGE_SORT_WITNESSES = [SORT_WITNESSES[2]]
 def cli(s): return dict(kind="cli", scenario=s)
@@ -215,11 +230,31 @@ C11_WITNESSES = [
     w('local s = "it\'s"\nlocal t = \'say "hi"\'\nlocal u = "plain"\n', oracle="contains", contains='local s = "it\'s"\nlocal t = \'say "hi"\'\nlocal u = \'plain\'\n', quote_style="AutoPreferSingle"),
     w('local s = "it\'s"\nlocal t = \'say "hi"\'\n', oracle="contains", contains='local s = \'it\\\'s\'\nlocal t = \'say "hi"\'\n', quote_style="ForceSingle"),
 ]
+CHAIN_SRC = 'a.b("x"):c(1)\nobj:get("name"):upper()\nlib.new({ 1, 2 }):run()\na.b("x").c.d(2)\nlocal v = m.n({ k = 1 }).o:p "q"\n'
+C11_WITNESSES += [
+    w(CHAIN_SRC, oracle="contains", contains='a.b("x"):c(1)\nobj:get("name"):upper()\nlib.new({ 1, 2 }):run()\na.b("x").c.d(2)\nlocal v = m.n({ k = 1 }).o:p "q"\n', call_parentheses="None", sweep=(40, 120)),
+    w(CHAIN_SRC, oracle="contains", contains='a.b("x"):c(1)\nobj:get("name"):upper()\nlib.new({ 1, 2 }):run()\na.b("x").c.d(2)\n', call_parentheses="NoSingleString", sweep=(40, 120)),
+    w(CHAIN_SRC, oracle="contains", contains='a.b("x"):c(1)\nobj:get("name"):upper()\nlib.new({ 1, 2 }):run()\na.b("x").c.d(2)\n', call_parentheses="NoSingleTable", sweep=(40, 120)),
+]
 LIT_SRC = ('local a = "it\'s \\"q\\" \\\\ \\a\\b\\f\\n\\r\\t\\v \\65\\066\\x41 \\z   next \\q \\- \\/"\n'
            "local b = 'say \\\"hi\\\" it\\\'s \\u{48}\\u{20AC} \\\n continued'\n"
            'local c = [[long\n"raw" \\n]]\nlocal d = [==[\nlevel ]] two]==]\n'
            'local n = { .5, -.5, 1., 0x.8p1, 0xA.8p0, 0x1F, 1e3, 3.0e-2, 0xff, 5 // 2 }\n')
+def _escape_grid():
+    """every sequence of up to three atoms (plain characters, quotes, every escape form incl. an escaped backslash followed by a letter,
+    and escapes Lua does not define) in both quote kinds: the escape rewriting of format_token is a regular-expression substitution that no
+    contract reaches (a pinned hole), so its value preservation is checked exhaustively over this grid instead (bounded, labelled)"""
+    atoms = ["a", "d", " ", "%", "\\\\", "\\n", "\\t", "\\d", "\\.", "\\-", "\\65", "\\x41", "\\u{48}", "\\z  ", "\\a"]
+    import itertools
+    lines = []
+    for n in (1, 2, 3):
+        for combo in itertools.product(atoms, repeat=n):
+            body = "".join(combo)
+            lines.append(f'f("{body}", \'{body}\', "{body}\\"q", \'{body}\\\'q\', "{body}\'", \'{body}"\')')
+    return "\n".join(lines) + "\n"
+ESCAPE_GRID = _escape_grid()
 C04_WITNESSES = [w(LIT_SRC, oracle="literals", syntax="lua54", quote_style=q) for q in ("AutoPreferDouble", "AutoPreferSingle", "ForceDouble", "ForceSingle")] + [
+    w(ESCAPE_GRID, oracle="literals", syntax="lua54", quote_style="AutoPreferDouble"), w(ESCAPE_GRID, oracle="literals", syntax="lua54", quote_style="ForceSingle"),
     w('local x = 1_000 + 0b1010 + 1_.5 + 0xA_B\nlocal s = `interp {x} "q"`\n', oracle="literals", syntax="luau"),
     w('local s = "line one\\\r\nline two"\nlocal t = \'a\\\r\nb\'\n', oracle="literals", syntax="lua52"),
     w('local s = "line one\\\r\nline two"\n', oracle="literals", syntax="luau", line_endings="Windows"),
@@ -286,7 +321,7 @@ WITNESSES = {
     "C14.": [cli("write_only_formatted_text"), cli("check_never_writes")], "C13.": [cli("check_never_writes")], "C17.": [cli("stdin_stdout_only")],
     "C18.": [cli("json_diff_reconstructs"), cli("unified_diff_reconstructs"), cli("check_never_writes")],
     "C01.output_is_printed_ast": LIB_WITNESSES, "C01.verified": LIB_WITNESSES, "C12.sort_iff_enabled": LIB_WITNESSES, "C02.whole_ast": LIB_WITNESSES,
-    "C08.": BLOCK_WITNESSES, "C09.": BLOCK_WITNESSES, "C01.semicolon": BLOCK_WITNESSES[-2:], "C01.next_starts": BLOCK_WITNESSES[-2:],
+    "C08.": BLOCK_WITNESSES, "C09.": BLOCK_WITNESSES + RANGE_BLANK_WITNESSES, "C01.semicolon": BLOCK_WITNESSES[-2:], "C01.next_starts": BLOCK_WITNESSES[-2:],
     "C05.": EXPR_WITNESSES + BINOP_COMMENT_WITNESSES, "C01.single_line.line_safe": LINE_SAFE_WITNESSES + BINOP_COMMENT_WITNESSES + UNOP_COMMENT_WITNESSES,
     "C05.hanging.line_safe": LINE_SAFE_WITNESSES + BINOP_COMMENT_WITNESSES + UNOP_COMMENT_WITNESSES, "C05.hang_binop.line_safe": LINE_SAFE_WITNESSES, "C01.parenthesise": LINE_SAFE_WITNESSES[:1],
     "C01.unary_operand": UNOP_COMMENT_WITNESSES, "C01.format_expression.line_safe": LINE_SAFE_WITNESSES + BINOP_COMMENT_WITNESSES,
@@ -307,9 +342,15 @@ C07_BOUNDED = [x for x in COLLAPSE_WITNESSES if x["oracle"] == "tree"] + TIME_WI
 CORPUS_CONFIGS_QUICK = [dict(), dict(collapse_simple_statement="Always", call_parentheses="None"),
                         dict(indent_type="Spaces", indent_width="3", line_endings="Windows", quote_style="ForceSingle", space_after_function_names="Always"), dict(sort_requires="true")]
 CORPUS_WIDTHS_QUICK = [100, 50, 25, 10]
+CORPUS_CONFIGS_C11 = [dict(call_parentheses="None"), dict(call_parentheses="NoSingleString"), dict(call_parentheses="NoSingleTable", collapse_simple_statement="Always"), dict(call_parentheses="Always")]
+CORPUS_CONFIGS_C12 = [dict(sort_requires="true"), dict(sort_requires="true", call_parentheses="None", indent_type="Spaces")]
 CORPUS_CONFIGS_THOROUGH = CORPUS_CONFIGS_QUICK + [dict(call_parentheses="Input", quote_style="AutoPreferSingle"), dict(call_parentheses="NoSingleTable", collapse_simple_statement="ConditionalOnly"),
                                                   dict(call_parentheses="NoSingleString", collapse_simple_statement="FunctionOnly", space_after_function_names="Definitions"), dict(indent_width="1", quote_style="ForceDouble", space_after_function_names="Calls")]
 CORPUS_WIDTHS_THOROUGH = [1, 5, 10, 15, 20, 25, 30, 40, 50, 60, 70, 80, 90, 100, 110, 119, 120, 121, 140, 200]
+
+IGNORE_CONFIGS = [dict(), dict(sort_requires="true", indent_type="Spaces", indent_width="2", collapse_simple_statement="Always")]
+RANGE_CONFIGS_QUICK = [dict(), dict(indent_type="Spaces", indent_width="2", collapse_simple_statement="Always", call_parentheses="None")]
+RANGE_CONFIGS_THOROUGH = RANGE_CONFIGS_QUICK + [dict(sort_requires="true", quote_style="ForceSingle")]
 
 NOT_APPLICABLE = {
     "C06": "two-run relational property over the whole layout engine with a re-lex in between; no per-function contract expresses it (DESIGN.md §9)",
